@@ -10,6 +10,14 @@
 //                E error reported, C cancel requested by the delegate
 //   probe <hexdir> <hexfile>
 //     -> "rfo <entries> | valid <entries> | inp <entries>"   (see below)
+//   open <hexdir> <hexfile> <hexdb|-> <lanes>     one BuildSystemFrontend kept alive for the following fbuild lines (C05)
+//   fbuild <cancel-at|-> <delay-us> <thread-cancel-us|-> <hextarget|->
+//     builds on the open frontend; cancel() is called from inside the <cancel-at>-th delegate callback of this build
+//     (after sleeping <delay-us>), and/or from another thread <thread-cancel-us> after the build began
+//     -> "ok=.. failures=.. errors=.. cancelled=<cancel was requested> ncb=<callbacks in this build>
+//         late=<callbacks delivered while no build was running, since the previous build returned> events=..."
+//        additional events: T:<cmd>:<kind> commandStatusChanged, X cancel requested from the callback
+//   close -> "late=<n>"
 #include "common.h"
 #include "llbuild/Basic/ExecutionQueue.h"
 #include "llbuild/Basic/FileInfo.h"
@@ -27,6 +35,9 @@
 #include "llvm/Support/SourceMgr.h"
 #include "llvm/Support/raw_ostream.h"
 #include <mutex>
+#include <atomic>
+#include <thread>
+#include <chrono>
 #include <set>
 #include <map>
 #include <unistd.h>
@@ -63,7 +74,27 @@ public:
 
   DrvDelegate(llvm::SourceMgr& sm) : BuildSystemFrontendDelegate(sm, "basic", 0) {}
 
-  void ev(const std::string& s) { std::lock_guard<std::mutex> l(mu); events.push_back(s); }
+  // cancellation from inside the n-th callback of a build (C05)
+  std::atomic<bool> inBuild{true};
+  std::atomic<int> late{0};
+  int cbCount = 0, cancelAt = 0, delayUs = 0;
+  std::atomic<bool> cancelRequested{false};
+
+  void ev(const std::string& s) {
+    bool fire = false;
+    {
+      std::lock_guard<std::mutex> l(mu);
+      if (!inBuild) { late++; events.push_back("LATE:" + s); return; }
+      events.push_back(s);
+      if (s != "X" && s != "C") { cbCount++; fire = (cancelAt != 0 && cbCount == cancelAt); }
+    }
+    if (fire) {
+      if (delayUs > 0) std::this_thread::sleep_for(std::chrono::microseconds(delayUs));
+      { std::lock_guard<std::mutex> l(mu); events.push_back("X"); }
+      cancelRequested = true;
+      cancel();
+    }
+  }
   void note(Command* c) { std::lock_guard<std::mutex> l(mu); commands[c->getName().str()] = c; }
 
   virtual std::unique_ptr<Tool> lookupTool(StringRef) override { return nullptr; }
@@ -83,7 +114,11 @@ public:
     super::hadCommandFailure();
     if (cancelOnFailure) { ev("C"); if (haveFrontend) cancel(); else if (directSystem) directSystem->cancel(); }
   }
-  virtual void commandStatusChanged(Command* c, CommandStatusKind) override { note(c); }
+  bool traceStatus = false;
+  virtual void commandStatusChanged(Command* c, CommandStatusKind k) override {
+    note(c);
+    if (traceStatus) ev("T:" + c->getName().str() + ":" + std::to_string((int)k));
+  }
   virtual void commandPreparing(Command* c) override { note(c); ev("P:" + c->getName().str()); }
   virtual bool shouldCommandStart(Command* c) override {
     ev("Q:" + c->getName().str());
@@ -275,7 +310,83 @@ std::string doProbe(const SV& t) {
   return out;
 }
 
+// ---- one frontend across several builds (C05) ------------------------------------------------------------
+
+struct Session {
+  llvm::SourceMgr sm;
+  BuildSystemInvocation inv;
+  std::unique_ptr<DrvDelegate> del;
+  std::unique_ptr<BuildSystemFrontend> fe;
+};
+std::unique_ptr<Session> g_session;
+
+std::string doOpen(const SV& t) {
+  g_session.reset(new Session());
+  Session& s = *g_session;
+  s.inv.chdirPath = unhex(t[1]);
+  s.inv.buildFilePath = unhex(t[2]);
+  s.inv.dbPath = unhex(t[3]);
+  int lanes = atoi(t[4].c_str());
+  s.inv.useSerialBuild = (lanes == 0);
+  s.inv.schedulerLanes = lanes;
+  s.del.reset(new DrvDelegate(s.sm));
+  s.del->traceStatus = true;
+  s.del->inBuild = false;
+  s.fe.reset(new BuildSystemFrontend(*s.del, s.inv, createLocalFileSystem()));
+  freopen("/dev/null", "w", stderr);      // diagnostics of many builds must not fill the pipe
+  return "opened";
+}
+
+std::string doFBuild(const SV& t) {
+  if (!g_session) return "ERR no session";
+  Session& s = *g_session;
+  DrvDelegate& d = *s.del;
+  int lateBefore;
+  {
+    std::lock_guard<std::mutex> l(d.mu);
+    lateBefore = d.late; d.late = 0;
+    d.events.clear(); d.cbCount = 0; d.failures = 0; d.errors = 0;
+    d.cancelAt = (t[1] == "-") ? 0 : atoi(t[1].c_str());
+    d.delayUs = atoi(t[2].c_str());
+    d.cancelRequested = false;
+    d.inBuild = true;
+  }
+  std::thread th;
+  std::atomic<bool> done{false};
+  if (t[3] != "-") {
+    long us = atol(t[3].c_str());
+    th = std::thread([&d, &done, us]() {
+      std::this_thread::sleep_for(std::chrono::microseconds(us));
+      if (!done) { d.cancelRequested = true; { std::lock_guard<std::mutex> l(d.mu); d.events.push_back("X"); } d.cancel(); }
+    });
+  }
+  bool ok = s.fe->build(unhex(t[4]));
+  done = true;
+  unsigned nf = d.getNumFailedCommands(), ne = d.getNumErrors();
+  std::vector<std::string> evs; int ncb;
+  {
+    std::lock_guard<std::mutex> l(d.mu);
+    d.inBuild = false; evs = d.events; ncb = d.cbCount;
+  }
+  if (th.joinable()) th.join();
+  return std::string("ok=") + (ok ? "1" : "0") + " failures=" + std::to_string(nf) + " errors=" + std::to_string(ne) +
+         " cancelled=" + (d.cancelRequested ? "1" : "0") + " ncb=" + std::to_string(ncb) + " late=" + std::to_string(lateBefore) +
+         " events=" + joinEvents(evs);
+}
+
+std::string doClose(const SV&) {
+  if (!g_session) return "ERR no session";
+  int late = g_session->del->late;
+  g_session->fe.reset();
+  late += g_session->del->late;
+  g_session.reset();
+  return "late=" + std::to_string(late);
+}
+
 std::string handle(const SV& t) {
+  if (t[0] == "open" && t.size() == 5) return doOpen(t);
+  if (t[0] == "fbuild" && t.size() == 5) return doFBuild(t);
+  if (t[0] == "close") return doClose(t);
   if (t[0] == "build" && t.size() == 8) return doBuild(t);
   if (t[0] == "probe" && t.size() == 3) return doProbe(t);
   return "ERR unknown";
